@@ -65,18 +65,18 @@ def eval_case(ctx, case):
     tree = {f"f{n}.bin": b"\x00" * n for n in sizes}
     tree["d"] = None
     tree["d/inner.txt"] = b"x"
-    mt = {p: mtime + 0.5 for p in tree}
-    mt[""] = mtime + 0.5
+    mt = {p: mtime + 0.25 for p in tree}
+    mt[""] = mtime + 0.25
     # a file that is reached through a symbolic link is hashed through the link: its record describes the file that was hashed
     import os
     sub.materialise(ctx.root, tree, mtimes=mt)
     target = os.path.join(ctx.base, "link-target.bin")
     with sub.REAL["open"](target, "wb") as f:
         f.write(b"\x01" * LINKED_SIZE)
-    os.utime(target, (mtime + 0.5, mtime + 0.5))
+    os.utime(target, (mtime + 0.25, mtime + 0.25))
     os.symlink(target, os.path.join(ctx.root, "linked.bin"))
     os.utime(os.path.join(ctx.root, "linked.bin"), (mtime - 86400 * 40, mtime - 86400 * 40), follow_symlinks=False)
-    os.utime(ctx.root, (mtime + 0.5, mtime + 0.5))
+    os.utime(ctx.root, (mtime + 0.25, mtime + 0.25))
     sub.set_tz(zone)
     try:
         res, post = ops.run_cmd(ctx, tree, ops.create("", ["md5"]), now + 0.25, mtimes=mt, tz=zone, keep=True)
@@ -102,7 +102,10 @@ def eval_case(ctx, case):
             return
         want_off = datetime.datetime.fromtimestamp(instant, z).utcoffset()
         err = abs(d.timestamp() - instant)
-        if err >= tol:
+        import math
+        # at the resolution of whole seconds the correct value is the second that contains the instant (or, for a writer that
+        # rounds, the nearest one); the fractions used here (.25) make both the same second - also for instants before 1970
+        if err >= tol or (d.microsecond == 0 and d.timestamp() not in (math.floor(instant), round(instant))):
             V("date-instant", f"{what} {text} denotes an instant {d.timestamp() - instant:+.0f} s away from the true one "
               f"({datetime.datetime.fromtimestamp(instant, z).isoformat()})", what=what, off_by_hour=abs(err - 3600) < 2 or abs(err - 1800) < 2)
         elif d.utcoffset() != want_off:
@@ -122,7 +125,7 @@ def eval_case(ctx, case):
         if rec["lastmod"] is None:
             V("lastmod-missing", f"{rec['path']} has no lastmodificationdate", kind=rec["kind"])
         else:
-            check_date("lastmodificationdate", rec["lastmod"], mtime + 0.5, 1.0)
+            check_date("lastmodificationdate", rec["lastmod"], mtime + 0.25, 1.0)
         for h in rec["hashes"] or rec["content"]:
             if h["hashdate"] is None:
                 V("hashdate-missing", f"{rec['path']} {h['format']} has no hashdate")
@@ -172,7 +175,8 @@ def main(tier, seed):
         ins = instants(zn)
         tr = transitions(zn)
         for now in ins:
-            for mtime in ins:
+            # file times before 1970 (negative time stamps) on top: one second before the epoch, 1938, and the epoch itself
+            for mtime in ins + ([-1, 0, -1000000000 - 7] if zn in ZONES and now in ins[:2] else []):
                 cases.append({"zone": zn, "now": now, "mtime": mtime, "trans": tr,
                               "sizes": [0, 1, (1 << 20) + 1] if zn in ZONES and now == ins[0] else [0, 1]})
     res = eng.pmap(work, cases)
